@@ -15,13 +15,18 @@
 //	   1000), Reset} to a depth for SHAKE128/256 and two cSHAKE instances (Write/Sum after
 //	   Read must panic, Sum never changes the state, clones are independent: all objects
 //	   are observed again at the end), and over {Write, Sum, Reset} for SHA3-256 and the
-//	   legacy Keccak hashes.
+//	   legacy Keccak hashes;
+//	L  long inputs (and, for io.Reader kinds, long outputs) 2^k+{-1,0,1,rate-1,rate,rate+1}.
+//
+// Hardening pass: caller-owned Write buffers, pre-filled Read/Sum destinations, mid-stream
+// Sum at every cut and Reset-of-a-used-object in G, read-chunking grid on the legacy sponge.
 package main
 
 import (
 	"bytes"
 	"fmt"
 	"hash"
+	"io"
 	"strings"
 	"time"
 
@@ -156,6 +161,29 @@ func plans(L, B int, full bool, f func(plan []int) bool) int {
 	return n
 }
 
+func clobber(b []byte) {
+	for i := range b {
+		b[i] ^= 0xFF
+	}
+}
+
+// dirty returns a destination of length n that holds old (non-zero) contents.
+func dirty(n int) []byte {
+	b := make([]byte, n)
+	for i := range b {
+		b[i] = 0xA5 ^ byte(i)
+	}
+	return b
+}
+
+// sumInto calls h.Sum with a prefix slice that has spare, pre-filled capacity (a reused
+// destination) and returns the result.
+func sumInto(h hash.Hash, outLen int) []byte {
+	dst := dirty(3 + outLen + 8)
+	copy(dst, "pfx")
+	return h.Sum(dst[:3])
+}
+
 func dataClass(c *vf.Ctx, label string, class, n int) []byte {
 	switch class {
 	case 1:
@@ -170,6 +198,9 @@ func run(c *vf.Ctx) {
 	c.Rule("(G) functions {SHA3-224/256/384/512, SHAKE128/256, legacy Keccak-256/512} x every message length 0..2*rate+1 and 1000 x write chunkings {one, byte-wise, strides 7/rate-1/rate/rate+1, every two-way split, boundary three-way splits} x value classes {seeded, 0xFF, 0x00}; XOFs x read chunkings; one-shot Sum/ShakeSum x every length (x output lengths); " +
 		"(C) cSHAKE128/256 x (N,S) lengths {0,1,200}^2 + {31,32,8191,8192} x message lengths {0,1,rate-1,rate,rate+1,2rate+1} x 1000 output bytes in two read chunkings; " +
 		"(S) every history over {Write 1,rate-1,rate+1; Sum; CloneSwitch; CloneKeep; Read 0,1,rate-1,rate,rate+1,1000; Reset} to depth D (XOFs) and {Write 1,rate-1,rate,rate+1; Sum; Reset} (fixed-output), no state merging, every object observed again at the end. " +
+		"(L) long inputs 2^k+{-1,0,1,rate-1,rate,rate+1}, k=10..kmax (legacy Keccak, whose code lives in the package: kmax 20 quick / 22 thorough; functions forwarding to the standard library: 16 / 20) x write chunkings {one, 1/rate-1/rate+1 then rest, two parts meeting at 2^(k-1)+1, strides 4095 and 65537} on a reused (Reset) object + one-shot Sum, and for every io.Reader kind (XOFs, legacy sponge) output streams of those lengths in the same chunkings + ShakeSum. " +
+		"Non-initial states in (G): every message also with a double Sum in the middle at every cut (class 0; boundary cuts otherwise) and on an object that absorbed L other bytes and was Reset. " +
+		"Caller-owned buffers / reused destinations: every Write gets a private copy that is overwritten afterwards, every Read and Sum destination is pre-filled with old contents (Sum: spare capacity behind the prefix) and overwritten after the comparison; cSHAKE N and S are overwritten after the constructor returns; the read-chunking grid also runs on the legacy sponge (io.Reader of the concrete type). " +
 		"non-trivial = distinct (function, message length, class) with length >= rate-1 (padding/second block involved), every cSHAKE case with non-empty N or S, every history of depth >= 2. oracle = Keccak-f[1600] sponge model (ref/keccakref)")
 	c.Assume("reference model verif/ref/keccakref (validated against FIPS 202 / SP 800-185 / Keccak-team vectors and CPython hashlib)")
 	c.Assume("Sum after Read followed by Reset is left unspecified (the wrapper keeps its squeezing flag): either the documented panic or the correct digest is accepted")
@@ -179,6 +210,11 @@ func run(c *vf.Ctx) {
 	for _, k := range kinds {
 		grid(c, k)
 	}
+	tl := time.Now()
+	for i, k := range kinds {
+		longGrid(c, k, i == 4 || i == 5)
+	}
+	c.Set("section_wall_L_s", fmt.Sprintf("%.1f", time.Since(tl).Seconds()))
 	t1 := time.Now()
 	cshakeGrid(c)
 	t2 := time.Now()
@@ -231,16 +267,19 @@ func grid(c *vf.Ctx, k *kind) {
 			h := k.newHash()
 			pos := 0
 			for _, n := range plan {
-				w, err := h.Write(msg[pos : pos+n])
+				// the caller owns the buffer: private copy, overwritten after the call
+				wbuf := append([]byte(nil), msg[pos:pos+n]...)
+				w, err := h.Write(wbuf)
 				if w != n || err != nil {
 					fail("Write return value wrong", map[string]any{"n": n, "got": w})
 					bad = true
 					return false
 				}
+				clobber(wbuf)
 				pos += n
 			}
 			c.Eval(1)
-			got := h.Sum([]byte("pfx"))
+			got := sumInto(h, k.outLen)
 			if len(got) != 3+k.outLen || string(got[:3]) != "pfx" || !bytes.Equal(got[3:], want[:k.outLen]) {
 				pl := append([]int(nil), plan...)
 				if len(pl) > 8 {
@@ -251,7 +290,7 @@ func grid(c *vf.Ctx, k *kind) {
 				return false
 			}
 			if k.xof() {
-				out := make([]byte, outN)
+				out := dirty(outN)
 				h.(sha3.ShakeHash).Read(out)
 				if !bytes.Equal(out, want[:outN]) {
 					fail("Read output != reference stream (write chunking grid)", map[string]any{"writes": len(plan)})
@@ -264,21 +303,29 @@ func grid(c *vf.Ctx, k *kind) {
 		if bad {
 			return
 		}
-		if k.xof() {
-			// read chunkings of the output
+		// dimension D (non-initial states): the same message with a double Sum in the middle at
+		// every cut (class 0; boundary cuts otherwise), and on an object that absorbed L other
+		// bytes (and, for odd L, was summed) before being Reset
+		if !gridStates(c, k, g.L, g.class, msg, want[:k.outLen], fail) {
+			return
+		}
+		if _, isReader := k.newHash().(io.Reader); isReader {
+			// read chunkings of the output: the XOFs, and the squeezing side of the legacy
+			// sponge (its concrete type is an io.Reader; Sum only ever squeezes one block)
 			plans(outN, R, false, func(plan []int) bool {
-				h := k.newShake()
+				h := k.newHash()
 				h.Write(msg)
 				pos := 0
 				c.Eval(1)
 				for _, n := range plan {
-					buf := make([]byte, n)
-					r, err := h.Read(buf)
+					buf := dirty(n) // reused destination: old contents must be overwritten, not combined
+					r, err := h.(io.Reader).Read(buf)
 					if r != n || err != nil || !bytes.Equal(buf, want[pos:pos+n]) {
 						fail("Read output != reference stream (read chunking grid)", map[string]any{"read_size": n, "position": pos})
 						bad = true
 						return false
 					}
+					clobber(buf) // the destination is the caller's again
 					pos += n
 				}
 				return true
@@ -286,6 +333,8 @@ func grid(c *vf.Ctx, k *kind) {
 			if bad {
 				return
 			}
+		}
+		if k.xof() {
 			for _, on := range []int{0, 1, 32, R - 1, R, R + 1, 2*R + 1, 1000} {
 				out := make([]byte, on)
 				k.shakeSum(out, msg)
@@ -316,6 +365,174 @@ func grid(c *vf.Ctx, k *kind) {
 		if g.L == 2*R+1 && g.class == 0 {
 			c.Sample(map[string]any{"section": "G", "function": k.name, "msglen": g.L, "rate": R, "digest": vf.Hex8(want[:k.outLen])})
 		}
+	})
+}
+
+func gridStates(c *vf.Ctx, k *kind, L, class int, msg, want []byte, fail func(string, map[string]any)) bool {
+	R := k.rate
+	midSum := func(cut int) bool {
+		h := k.newHash()
+		h.Write(msg[:cut])
+		s1 := h.Sum(nil)
+		s2 := sumInto(h, k.outLen)[3:]
+		c.Eval(1)
+		if !bytes.Equal(s1, s2) {
+			fail("Sum in the middle of a stream is not idempotent", map[string]any{"cut": cut})
+			return false
+		}
+		clobber(s1)
+		clobber(s2)
+		h.Write(msg[cut:])
+		if got := h.Sum(nil); !bytes.Equal(got, want) {
+			fail("Sum in the middle of a stream alters the running state", map[string]any{"cut": cut, "got": fmt.Sprintf("%x", got), "want": fmt.Sprintf("%x", want)})
+			return false
+		}
+		return true
+	}
+	if class == 0 || c.Thorough {
+		for cut := 0; cut <= L; cut++ {
+			if !midSum(cut) {
+				return false
+			}
+		}
+	} else {
+		for _, cut := range [...]int{0, 1, R - 1, R, R + 1, 2 * R, L - 1, L} {
+			if cut >= 0 && cut <= L && !midSum(cut) {
+				return false
+			}
+		}
+	}
+	h := k.newHash()
+	junk := make([]byte, L)
+	for i := range junk {
+		junk[i] = ^msg[i] ^ byte(i)
+	}
+	h.Write(junk)
+	if L&1 == 1 {
+		h.Sum(nil)
+	}
+	h.Reset()
+	h.Write(msg)
+	c.Eval(1)
+	if got := h.Sum(nil); !bytes.Equal(got, want) {
+		fail("Reset of a used object does not restore the initial state", map[string]any{"got": fmt.Sprintf("%x", got), "want": fmt.Sprintf("%x", want)})
+		return false
+	}
+	return true
+}
+
+// ------------------------------------------------------------------ L (long inputs / outputs)
+
+// longGrid: message lengths 2^k+{-1,0,1,R-1,R,R+1} in write chunkings whose boundaries sit
+// on and cross those points, and (io.Reader kinds) output streams of those lengths in
+// read chunkings likewise. kmax is 22 for the legacy Keccak code that lives in the
+// package (20 in quick: the sponge model absorbs only a few MB/s) and smaller for the
+// functions that merely forward to the standard library.
+func longGrid(c *vf.Ctx, k *kind, legacy bool) {
+	R := k.rate
+	kmax := 16
+	switch {
+	case legacy && c.Thorough:
+		kmax = 22
+	case legacy || c.Thorough:
+		kmax = 20
+	}
+	var lens []int
+	seen := map[int]bool{}
+	for e := 10; e <= kmax; e++ {
+		for _, d := range []int{-1, 0, 1, R - 1, R, R + 1} {
+			if L := 1<<e + d; !seen[L] {
+				seen[L] = true
+				lens = append(lens, L)
+			}
+		}
+	}
+	long := c.Bytes("L-"+k.name, 0, 1<<kmax+R+1)
+	_, isReader := k.newHash().(io.Reader)
+	longPlans := func(L int) [][]int {
+		ps := [][]int{{L}, {1, L - 1}, {R - 1, L - R + 1}, {R + 1, L - R - 1}}
+		half := 1
+		for half*2 < L {
+			half *= 2
+		}
+		ps = append(ps, []int{half/2 + 1, L - half/2 - 1})
+		for _, st := range []int{4095, 65537} {
+			if L > st {
+				var p []int
+				for r := L; r > 0; r -= st {
+					p = append(p, min(r, st))
+				}
+				ps = append(ps, p)
+			}
+		}
+		return ps
+	}
+	modes := 1
+	if isReader {
+		modes = 2
+	}
+	pfor(c, k.name+" section L", len(lens)*modes, func(j int) {
+		L := lens[len(lens)-1-j/modes] // longest first
+		if j%modes == 0 {
+			msg := long[:L]
+			want := k.stream(msg, k.outLen)
+			h := k.newHash()
+			for pi, plan := range longPlans(L) {
+				if pi > 0 {
+					h.Reset() // reused object
+				}
+				pos := 0
+				for _, n := range plan {
+					h.Write(msg[pos : pos+n])
+					pos += n
+				}
+				c.Eval(1)
+				if got := sumInto(h, k.outLen)[3:]; !bytes.Equal(got, want) {
+					c.Violation(k.name+": Sum != reference digest (long input)", map[string]any{"function": k.name, "msglen": L, "chunking": pi, "got": fmt.Sprintf("%x", got), "want": fmt.Sprintf("%x", want)})
+					return
+				}
+			}
+			if k.oneShot != nil {
+				c.Eval(1)
+				if got := k.oneShot(msg); !bytes.Equal(got, want) {
+					c.Violation(k.name+": one-shot Sum != reference digest (long input)", map[string]any{"function": k.name, "msglen": L})
+					return
+				}
+			}
+			c.Nontrivial(fmt.Sprintf("L/%s/in/%d", k.name, L))
+			if L == 1<<kmax+R+1 {
+				c.Sample(map[string]any{"section": "L", "function": k.name, "msglen": L, "digest": vf.Hex8(want)})
+			}
+			return
+		}
+		// long output of a short message
+		msg := long[:R+1]
+		want := k.stream(msg, L)
+		for pi, plan := range longPlans(L) {
+			h := k.newHash()
+			h.Write(msg)
+			pos := 0
+			c.Eval(1)
+			for _, n := range plan {
+				buf := dirty(n)
+				r, err := h.(io.Reader).Read(buf)
+				if r != n || err != nil || !bytes.Equal(buf, want[pos:pos+n]) {
+					c.Violation(k.name+": Read output != reference stream (long output)", map[string]any{"function": k.name, "outlen": L, "chunking": pi, "position": pos, "read_size": n})
+					return
+				}
+				pos += n
+			}
+		}
+		if k.shakeSum != nil {
+			out := dirty(L)
+			k.shakeSum(out, msg)
+			c.Eval(1)
+			if !bytes.Equal(out, want) {
+				c.Violation(k.name+": ShakeSum != reference stream (long output)", map[string]any{"function": k.name, "outlen": L})
+				return
+			}
+		}
+		c.Nontrivial(fmt.Sprintf("L/%s/out/%d", k.name, L))
 	})
 }
 
@@ -429,7 +646,10 @@ func (o *obj) want(k *kind, from, n int) []byte {
 // sum checks Sum on an absorbing object ("" = fine).
 func (o *obj) sum(k *kind) string {
 	var got []byte
-	p, v, _ := vf.Protect(func() { got = o.h.Sum([]byte{9}) })
+	dst := dirty(1 + k.outLen + 8)
+	dst[0] = 9
+	p, v, _ := vf.Protect(func() { got = o.h.Sum(dst[:1]) })
+	defer func() { clobber(got) }()
 	if p {
 		if o.everRead {
 			return "" // unspecified after Read+Reset (see assumptions)
@@ -443,7 +663,8 @@ func (o *obj) sum(k *kind) string {
 }
 
 func (o *obj) read(k *kind, n int) string {
-	buf := make([]byte, n)
+	buf := dirty(n)
+	defer clobber(buf)
 	var r int
 	var err error
 	if p, v, _ := vf.Protect(func() { r, err = o.h.(sha3.ShakeHash).Read(buf) }); p {
@@ -493,7 +714,9 @@ func sequences(c *vf.Ctx, k *kind) {
 				case 'W':
 					var n int
 					var err error
-					p, v, _ := vf.Protect(func() { n, err = cur.h.Write(data[pos : pos+o.n]) })
+					wbuf := append([]byte(nil), data[pos:pos+o.n]...) // caller-owned: overwritten after the call
+					p, v, _ := vf.Protect(func() { n, err = cur.h.Write(wbuf) })
+					clobber(wbuf)
 					if cur.squeezing {
 						if !p {
 							return "", true, "Write after Read does not panic"
